@@ -108,6 +108,16 @@ pub fn pattern_status(pattern: &crate::pattern::MultiPattern) -> u8 {
     pattern.status() as u8
 }
 
+static UNINIT_READS: std::sync::atomic::AtomicU64 = std::sync::atomic::AtomicU64::new(0);
+/// called by `get_unchecked` when it is used on an entry that is not (yet) initialised
+pub(crate) fn uninit_read(_index: u32) {
+    UNINIT_READS.fetch_add(1, std::sync::atomic::Ordering::SeqCst);
+}
+/// number of unchecked reads of uninitialised entries since the last call
+pub fn take_uninit_reads() -> u64 {
+    UNINIT_READS.swap(0, std::sync::atomic::Ordering::SeqCst)
+}
+
 /// `MultiPattern::reset_status` (what a tick does after it has looked at the status)
 pub fn reset_pattern_status(pattern: &mut crate::pattern::MultiPattern) {
     pattern.reset_status()
